@@ -37,7 +37,22 @@ func getCanCall(f any) canCall {
 	if r, ok := f.(Reflective); ok {
 		return r
 	}
-	return reflect.ValueOf(f)
+	v := reflect.ValueOf(f)
+	if v.Kind() == reflect.Func && v.Type().IsVariadic() {
+		return variadicFunc{v}
+	}
+	return v
+}
+
+// variadicFunc is the reflect.Value of a variadic function.  The final parameter
+// of a variadic function is injected like any other parameter: as one value of its
+// slice type, so the function is called with that slice.
+type variadicFunc struct {
+	reflect.Value
+}
+
+func (f variadicFunc) Call(in []reflect.Value) []reflect.Value {
+	return f.Value.CallSlice(in)
 }
 
 type canRealType interface {
